@@ -28,6 +28,17 @@ def make_case(rng, ops=ALLOPS, depth=None, storages=("local", "array")):
     expr = exprs.rand_expr(rng, [n for n, _, _ in decls[:-1]], regs, depth, ops)
     if expr[0] == "c":
         expr = ["+", ["v", "v0"], expr]
+    if rng.random() < 0.12 and ("abs" in ops or "neg" in ops):
+        # unary operators directly on an operand at the ends of its range (they are rare in random trees)
+        leaf = exprs.rand_leaf(rng, [n for n, _, _ in decls[:-1]], regs, allow_const=False)
+        if leaf[0] == "v":
+            f = [f for n, _, f in decls if n == leaf[1]][0]
+            nb, sg = dsl.fmt_size(f), dsl.fmt_signed(f)
+            top = 1 << (8 * nb - 1)
+            values[leaf[1]] = rng.choice([-top, -top + 1, -1, top - 1] if sg else [top, top + 1, 2 * top - 1, 2 * top - 16, top - 1])
+        expr = [rng.choice([o for o in ("abs", "neg") if o in ops]), leaf]
+        if rng.random() < 0.3:
+            expr = [rng.choice(["+", "-", "|"]), expr, exprs.rand_leaf(rng, [n for n, _, _ in decls[:-1]], regs)]
     return {"decls": decls, "values": values, "reginit": reginit, "regs": regs, "expr": expr, "dest": "d"}
 
 
@@ -42,7 +53,7 @@ def layout_bytes(case, built):
     stack = bytearray(built.stack_size)
     amap = bytearray(built.map_size)
     for name, (storage, fmt, addr) in built.layout.items():
-        if storage == "packet":
+        if storage in ("packet", "hash"):
             continue
         b = dsl.to_bytes(fmt, case["values"][name])
         if storage == "local":
